@@ -302,6 +302,10 @@ def trace_cost(prog, p):
 
 def _c04(dump_path, fname, tier):
     tp = tier_params(tier)
+    if tier == "thorough":
+        # four metadata-solver configurations per function: per-function budgets are smaller than
+        # in the single-configuration checks so that the whole run stays around an hour
+        tp = dict(tp, explore_s=90, func_budget_s=300)
     t0 = time.time()
     prog = load_prog(dump_path)
     f = find_func(prog, fname)
@@ -381,6 +385,10 @@ c04_worker = wrap(_c04)
 
 def _c17(dump_path, fname, tier):
     tp = tier_params(tier)
+    if tier == "thorough":
+        # four metadata-solver configurations per function: per-function budgets are smaller than
+        # in the single-configuration checks so that the whole run stays around an hour
+        tp = dict(tp, explore_s=90, func_budget_s=300)
     t0 = time.time()
     prog = load_prog(dump_path)
     f = find_func(prog, fname)
